@@ -140,6 +140,22 @@ impl PacketBuilder {
     }
 
     /// Get packet type (first byte of fixed header)
+    /// Verification hook: (state 0/1/2, header bytes, remaining length, buffered payload).
+    #[cfg(mqtt_protocol_core_verif)]
+    pub fn verif_state(&self) -> (u8, Vec<u8>, usize, Vec<u8>) {
+        let st = match self.state {
+            ReadState::FixedHeader => 0,
+            ReadState::RemainingLength => 1,
+            ReadState::Payload => 2,
+        };
+        (
+            st,
+            self.header_buf.clone(),
+            self.remaining_length,
+            self.raw_buf.clone().unwrap_or_default(),
+        )
+    }
+
     fn get_packet_type(&self) -> u8 {
         if !self.header_buf.is_empty() {
             self.header_buf[0]
